@@ -52,7 +52,19 @@ def check_registry(run, tree):
             for n in ast.walk(st) if not isinstance(st, (ast.FunctionDef, ast.ClassDef)) else []:
                 if isinstance(n, ast.Call) and tree.dotted(mi, n.func) in ("pint.UnitRegistry",):
                     sites.append((None, n))
-    ok = len(sites) == 1 and sites[0][0] is not None and sites[0][0].qual == "units/units.py::Units.__init__"
+    # the one construction belongs to the constructor that Units() runs: Units.__init__ as resolved through the MRO (a base class that owns
+    # the registry counts), or a helper that constructor calls
+    ucls0 = tree.cls("units/units.py::Units")
+    init = tree.method(ucls0, "__init__")
+    allowed = set()
+    if init is not None:
+        allowed.add(init.qual)
+        for n in walk_no_nested(init.node):
+            if isinstance(n, ast.Call):
+                c = tree.resolve_call(init, n)
+                if hasattr(c, "qual") and hasattr(c, "node") and isinstance(c.node, ast.FunctionDef):
+                    allowed.add(c.qual)
+    ok = len(sites) == 1 and sites[0][0] is not None and sites[0][0].qual in allowed
     run.ob("units/units.py::UnitRegistry-construction", ok, sites[0][0].where(sites[0][1]) if sites and sites[0][0] else "units/units.py",
            "%d registry constructions: %s" % (len(sites), [s[0].qual if s[0] else "module level" for s in sites]),
            "units from two registries never compare equal and cannot be converted into each other")
